@@ -305,12 +305,14 @@ pub fn precompile_template(
     let ignorer = precompile_addr(3);
     let halter = precompile_addr(4);
     let fatal = precompile_addr(5);
+    let remapper = precompile_addr(6);
     let holder = contract(0);
     precompiles.push(PrecompileSpec { address: bank, kind: PrecompileKind::Bank });
     precompiles.push(PrecompileSpec { address: observer, kind: PrecompileKind::Observer });
     precompiles.push(PrecompileSpec { address: mutator, kind: PrecompileKind::StaticMutator });
     precompiles.push(PrecompileSpec { address: ignorer, kind: PrecompileKind::FaultIgnorer });
     precompiles.push(PrecompileSpec { address: halter, kind: PrecompileKind::Halter });
+    precompiles.push(PrecompileSpec { address: remapper, kind: PrecompileKind::FaultRemapper });
     let fatal_value = 40 + rng.below(3);
     if rng.chance(1, 3) {
         precompiles.push(PrecompileSpec {
@@ -330,7 +332,7 @@ pub fn precompile_template(
     let static_caller = contract(base + 1);
     let reverting = contract(base + 2);
     let kinds = if spec >= SpecId::BYZANTIUM { vec![CallKind::Call, CallKind::Static, CallKind::Delegate] } else { vec![CallKind::Call] };
-    let pc = |rng: &mut Prng| *rng.pick(&[bank, bank, observer, observer, mutator, ignorer, halter]);
+    let pc = |rng: &mut Prng| *rng.pick(&[bank, bank, observer, observer, mutator, ignorer, halter, remapper]);
     let mut nested_prog = Vec::new();
     for _ in 0..rng.range(1, 3) {
         nested_prog.push(Stmt::CallRaw { kind: *rng.pick(&kinds), to: addr_expr(pc(rng)), value: imm(0), data: cmd(rng), gas: 100_000 });
@@ -362,6 +364,7 @@ pub fn precompile_template(
         direct(rng, mutator, "precompile-direct-mutator"),
         direct(rng, ignorer, "precompile-direct-ignorer"),
         direct(rng, halter, "precompile-direct-halter"),
+        direct(rng, remapper, "precompile-direct-remapper"),
         Intent::call(s(rng), nested, &[0, 1], "precompile-nested"),
         Intent::call(s(rng), static_caller, &[0, 0], "precompile-static"),
         Intent::call(s(rng), reverting, &[0, 1], "precompile-in-reverting-frame"),
@@ -397,8 +400,25 @@ pub struct ReservePlan {
 pub fn reserve_template(rng: &mut Prng, n_eoa: usize, base: usize, pre_state: &mut Vec<AccountSpec>) -> ReservePlan {
     let w = contract(base); // spender code run in the delegated account's context
     let sink = eoa((n_eoa - 1).max(0));
-    let kind = rng.below(6);
+    let kind = rng.below(11);
+    let refunder = contract(base + 3); // sends whatever it receives straight back to its caller
+    let donor = contract(base + 4); // pre-funded: pays calldata word 1 to its caller
+    let call_v = |to: Expr, value: Expr| Stmt::Call { kind: CallKind::Call, to, value, arg0: imm(0), arg1: imm(0), gas: 80_000 };
     let program = match kind {
+        // several surviving debits with credits in between / afterwards: the reserve is measured against
+        // the balance before the FIRST debit and against the FINAL balance
+        6 => vec![call_v(addr_expr(sink), Expr::CallData(1)), call_v(addr_expr(refunder), Expr::CallData(2)), Stmt::Mix(Expr::SelfBalance)],
+        7 => vec![
+            Stmt::Call { kind: CallKind::Call, to: addr_expr(donor), value: imm(1), arg0: imm(0), arg1: Expr::CallData(2), gas: 80_000 },
+            call_v(addr_expr(sink), Expr::CallData(1)),
+            Stmt::Mix(Expr::SelfBalance),
+        ],
+        8 => vec![call_v(addr_expr(refunder), Expr::CallData(1)), call_v(addr_expr(sink), Expr::CallData(2)), call_v(addr_expr(refunder), Expr::CallData(2))],
+        9 => vec![call_v(addr_expr(sink), Expr::CallData(2)), Stmt::Mix(Expr::SelfBalance), Stmt::SelfDestruct(addr_expr(sink))],
+        10 => {
+            let runtime = evmasm::compile(&[Stmt::Mix(Expr::SelfBalance)]);
+            vec![Stmt::Create { init: evmasm::compile_init(&[], &runtime), value: Expr::CallData(2) }, call_v(addr_expr(sink), Expr::CallData(1))]
+        }
         0 => vec![Stmt::Call { kind: CallKind::Call, to: addr_expr(sink), value: Expr::CallData(1), arg0: imm(0), arg1: imm(0), gas: 60_000 }, Stmt::Mix(Expr::SelfBalance)],
         1 => vec![
             // credit before debit, inner revert
@@ -418,6 +438,8 @@ pub fn reserve_template(rng: &mut Prng, n_eoa: usize, base: usize, pre_state: &m
     pre_state.push(contract_account(w, &program, &[], 0));
     // helper that always reverts after receiving value
     pre_state.push(contract_account(contract(base + 1), &[Stmt::Mix(Expr::CallValue), Stmt::Revert], &[], 0));
+    pre_state.push(contract_account(refunder, &[Stmt::Call { kind: CallKind::Call, to: Expr::Caller, value: Expr::CallValue, arg0: imm(0), arg1: imm(0), gas: 40_000 }], &[], 0));
+    pre_state.push(contract_account(donor, &[Stmt::Call { kind: CallKind::Call, to: Expr::Caller, value: Expr::CallData(1), arg0: imm(0), arg1: imm(0), gas: 40_000 }], &[], 1_000_000_000));
 
     let delegated = rng.below(n_eoa.max(2) as u64 - 1) as usize;
     let a = eoa(delegated);
@@ -449,7 +471,7 @@ pub fn reserve_template(rng: &mut Prng, n_eoa: usize, base: usize, pre_state: &m
     let mut intents = Vec::new();
     let n_calls = rng.range(1, 3) as usize;
     for _ in 0..n_calls {
-        intents.push(Intent::call(s(rng), a, &[0, *rng.pick(&amounts)], "call-delegated"));
+        intents.push(Intent::call(s(rng), a, &[0, *rng.pick(&amounts), *rng.pick(&amounts)], "call-delegated"));
     }
     if rng.chance(1, 2) {
         // a credit to the delegated account before / between the debits
